@@ -200,7 +200,7 @@ def job_random(args):
             out.append(e)
         if rnd.random() < 0.3:
             # logarithms handed over directly, some far below ln(1e-300): 0, ln 2, 1000 ln 2, 1001 ln 2, 2000 ln 2, 3000 ln 2
-            dids = rnd.choice([[100, 101, 110, 111], [110, 111, 120, 130], [100, 110, 120]])
+            dids = rnd.choice([[100, 101, 110, 111], [110, 111, 120, 130], [100, 110, 120], [400, 401, 390, 110]])     # (the last: costs of 20 000 and more, totals far above 1e5)
             P = [[rnd.choice(dids) for _ in range(n[k])] for k in range(T)]
             Q = [[[rnd.choice(dids) for _ in range(n[k + 1])] for _ in range(n[k])] for k in range(T - 1)]
             e = decode(n, P, Q, "logd")
